@@ -52,6 +52,7 @@ type Prog struct {
 	sortAxioms map[string]*Sort
 	permAxioms map[string]*Sort
 	ghostSorts map[string]*Sort // sorts of the call records (\ret, \arg)
+	callees    map[string][]string // static call graph over the functions of the packages (by base name)
 }
 
 func funcDisplayName(f *ssa.Function) string {
